@@ -55,12 +55,15 @@ class Tup:
 
 
 class Adt:
-    """struct value; fields missing from fs are symbolic, named base+'.'+idx"""
-    __slots__ = ('name', 'fs', 'base', 'tys')
+    """struct value; fields missing from fs are symbolic, named base+'.'+idx; or, for a value that
+    is the merge of two structs of different origin, alt = (c, a, b): a missing field k reads as
+    ite(c, a.k, b.k) (resolved on demand, because the field's type is only known at the read)"""
+    __slots__ = ('name', 'fs', 'base', 'tys', 'alt')
 
-    def __init__(self, name, fs, base=None, tys=None):
+    def __init__(self, name, fs, base=None, tys=None, alt=None):
         self.name, self.fs, self.base = name, dict(fs), base
         self.tys = dict(tys) if tys else {}
+        self.alt = alt
 
     def __repr__(self):
         return 'Adt(%s,%r,%s)' % (self.name, self.fs, self.base)
@@ -68,10 +71,11 @@ class Adt:
 
 class En:
     """enum value: d = variant index (python int or z3 Int), vs = {variant idx: [payload fields]}"""
-    __slots__ = ('name', 'd', 'vs', 'base')
+    __slots__ = ('name', 'd', 'vs', 'base', 'alt')
 
-    def __init__(self, name, d, vs, base=None):
+    def __init__(self, name, d, vs, base=None, alt=None):
         self.name, self.d, self.vs, self.base = name, d, dict(vs), base
+        self.alt = alt      # (c, a, b): payloads missing from vs read as ite(c, a's, b's)
 
     def __repr__(self):
         return 'En(%s,%s,%r)' % (self.name, self.d, self.vs)
@@ -730,29 +734,36 @@ class Engine:
         if isinstance(a, Tup) and isinstance(b, Tup) and len(a.fs) == len(b.fs):
             return Tup([self.merge(c, x, y) for x, y in zip(a.fs, b.fs)])
         if isinstance(a, Adt) and isinstance(b, Adt):
-            if a.base != b.base and (a.base is not None and b.base is not None):
-                keys = None
+            if not (a.base == b.base and a.alt is b.alt):
+                # different origins: fields are resolved on demand through alt
+                return Adt(a.name if a.name != '?' else b.name, {}, None, dict(b.tys, **a.tys), alt=(c, a, b))
             keys = set(a.fs) | set(b.fs)
             fs = {}
             for k in keys:
                 x = a.fs.get(k)
                 y = b.fs.get(k)
                 if x is None or y is None:
-                    # the side lacking the field still reads its symbolic base value
-                    if a.base == b.base and a.base is not None:
-                        ty = a.tys.get(k) or b.tys.get(k)
-                        if ty is None or ty == '?':
-                            raise Unsupported('merge of partially overwritten lazy struct ' + a.name)
-                        basev = self.sym('%s.%d' % (a.base, k), ty, None)
-                        fs[k] = self.merge(c, x if x is not None else basev, y if y is not None else basev)
-                    else:
+                    if a.base is None and a.alt is None:
+                        # aggregate under construction: the field is simply not written yet on one path
                         fs[k] = x if x is not None else y
+                        continue
+                    # the side lacking the field still reads the common origin's value
+                    ty = a.tys.get(k) or b.tys.get(k)
+                    if ty is None or ty == '?':
+                        raise Unsupported('merge of partially overwritten lazy struct ' + a.name)
+                    basev = self.project(Adt(a.name, {}, a.base, a.tys, alt=a.alt), ('f', k, ty), None, True, 'merge')
+                    fs[k] = self.merge(c, x if x is not None else basev, y if y is not None else basev)
                 else:
                     fs[k] = self.merge(c, x, y)
             tys = dict(b.tys)
             tys.update(a.tys)
-            return Adt(a.name, fs, a.base if a.base is not None else b.base, tys)
+            return Adt(a.name, fs, a.base, tys, alt=a.alt)
         if isinstance(a, En) and isinstance(b, En):
+            lazy_a = a.base is not None or a.alt is not None
+            lazy_b = b.base is not None or b.alt is not None
+            if (lazy_a or lazy_b) and not (a.base == b.base and a.alt is b.alt):
+                # payloads not materialised on a lazy side must be read from that side: on demand
+                return En(a.name if a.name else b.name, If(c, a.d, b.d), {}, None, alt=(c, a, b))
             vs = {}
             for k in set(a.vs) | set(b.vs):
                 x, y = a.vs.get(k), b.vs.get(k)
@@ -762,7 +773,7 @@ class Engine:
                     vs[k] = x
                 else:
                     vs[k] = [self.merge(c, p, q) for p, q in zip(x, y)]
-            return En(a.name if a.name else b.name, If(c, a.d, b.d), vs, a.base or b.base)
+            return En(a.name if a.name else b.name, If(c, a.d, b.d), vs, a.base or b.base, alt=a.alt)
         if isinstance(a, Abs) and isinstance(b, Abs):
             return Abs(If(c, a.t, b.t), a.n)
         if isinstance(a, Ref) and isinstance(b, Ref):
@@ -820,6 +831,9 @@ class Engine:
             if isinstance(v, Adt):
                 if idx in v.fs:
                     return v.fs[idx]
+                if v.alt is not None:
+                    c, a, b = v.alt
+                    return self.merge(c, self.project(a, step, mem, guard, where), self.project(b, step, mem, guard, where))
                 if v.base is None:
                     raise Unsupported('read of unset field %d of %s' % (idx, v.name))
                 return self.sym('%s.%d' % (v.base, idx), ty, mem)
@@ -856,6 +870,36 @@ class Engine:
             return r
         raise Unsupported('projection ' + str(step))
 
+    def en_payload(self, v, vname, vi, k, ty, mem, where):
+        """payload field k of variant vi (named vname) of enum value v; lazily symbolic / alt-aware"""
+        pl = v.vs.get(vi)
+        if pl is not None and k < len(pl) and pl[k] is not None:
+            return pl[k]
+        if v.alt is not None:
+            c, a, b = v.alt
+            vals = []
+            for side in (a, b):
+                if isinstance(side.d, int) and side.d != vi:
+                    vals.append(None)       # that side is not this variant: its payload is irrelevant
+                    continue
+                try:
+                    vals.append(self.en_payload(side, vname, vi, k, ty, mem, where))
+                except Unsupported:
+                    vals.append(None)
+            if vals[0] is None and vals[1] is None:
+                raise Unsupported('payload of variant %s of %s unknown at %s' % (vname, v.name, where))
+            return self.merge(c, vals[0], vals[1])
+        if v.base is None or ty is None:
+            raise Unsupported('payload of variant %s of %s unknown at %s' % (vname, v.name, where))
+        return self.sym('%s.%s.%d' % (v.base, vname, k), ty, mem)
+
+    def variant_name(self, enum_name, vi):
+        head = enum_name.split('<')[0].split('::')[-1].strip()
+        tab = {'Option': ['None', 'Some'], 'Result': ['Ok', 'Err'], 'ControlFlow': ['Continue', 'Break']}.get(head)
+        if tab:
+            return tab[vi]
+        return self.decls.enum_variants(enum_name)[vi][0]
+
     def read_path(self, v, path, mem, guard, where):
         i = 0
         while i < len(path):
@@ -878,13 +922,7 @@ class Engine:
                 if not isinstance(v, En):
                     raise Unsupported('downcast of %r at %s' % (v, where))
                 vi = self.variant_index(v.name, st[1])
-                pl = v.vs.get(vi)
-                if pl is None or f[1] >= len(pl):
-                    if v.base is None:
-                        raise Unsupported('payload of variant %s of %s unknown at %s' % (st[1], v.name, where))
-                    v = self.sym('%s.%s.%d' % (v.base, st[1], f[1]), f[2], mem)
-                else:
-                    v = pl[f[1]]
+                v = self.en_payload(v, st[1], vi, f[1], f[2], mem, where)
                 i += 2
                 continue
             v = self.project(v, st, mem, guard, where)
@@ -911,12 +949,12 @@ class Engine:
             if isinstance(v, Adt):
                 cur = v.fs.get(idx)
                 if cur is None and len(path) > 1:
-                    cur = self.sym('%s.%d' % (v.base, idx), ty, mem)
+                    cur = self.project(v, ('f', idx, ty), mem, guard, where)
                 fs = dict(v.fs)
                 fs[idx] = self.write_path(cur, path[1:], new, mem, guard, where)
                 tys = dict(v.tys)
                 tys[idx] = ty
-                return Adt(v.name, fs, v.base, tys)
+                return Adt(v.name, fs, v.base, tys, alt=v.alt)
             if v is None:
                 # building an aggregate field by field
                 return self.write_path(Adt('?', {}, None), path, new, mem, guard, where)
@@ -933,10 +971,12 @@ class Engine:
             pl = list(v.vs.get(vi, []))
             while len(pl) <= f[1]:
                 pl.append(None)
+            if pl[f[1]] is None and len(path) > 2:
+                pl[f[1]] = self.en_payload(v, st[1], vi, f[1], f[2] if len(f) > 2 else None, mem, where)
             pl[f[1]] = self.write_path(pl[f[1]], path[2:], new, mem, guard, where)
             vs = dict(v.vs)
             vs[vi] = pl
-            return En(v.name, v.d, vs, v.base)
+            return En(v.name, v.d, vs, v.base, alt=v.alt)
         if st[0] == 'sub':
             lo, hi = st[1], st[2]
             if not isinstance(v, Tup):
